@@ -281,5 +281,5 @@ func TestVerifC25(t *testing.T) { runPart(t, "main", vcommon.Scale(400, 20000), 
 // TestVerifC25Race repeats the monitor on the columnar formats under the race
 // build (checkptr on colblk's unsafe decoding); thorough tier only.
 func TestVerifC25Race(t *testing.T) {
-	runPart(t, "race", vcommon.Scale(40, 1500), sstmodel.Shape{MinFormat: sstable.TableFormatPebblev5, MaxEntries: 1200})
+	runPart(t, "race", vcommon.Scale(40, 600), sstmodel.Shape{MinFormat: sstable.TableFormatPebblev5, MaxEntries: 1200})
 }
